@@ -148,18 +148,21 @@ def judge(term, tree, name, **args):
 
 @harness(
     prop="C06",
-    cubes={"quick": {"p": range(20), "d": [0, 1]}, "thorough": {"p": range(20), "d": range(ND)}},
-    bounds={"quick": {"N": 9}, "thorough": {"N": 99}},
+    cubes={"p": range(20), "d": range(ND)},
+    bounds={"quick": {"N": 9, "FULLD": 0}, "thorough": {"N": 99, "FULLD": 1}},
     timeout={"quick": 300, "thorough": 900},
     witness=[dict(p=2, d=0, c=0, pos=0, n=3, ul=False), dict(p=10, d=1, c=11, pos=1, n=-2, ul=True),
              dict(p=13, d=0, c=4, pos=0, n=1, ul=False)],
     doc="every (parent kind p, child kind c, operand position pos) with leaf grandchildren (field / int literal -N..N, "
-        "sign symbolic); 20 parent kinds x 22 child kinds; rendering re-parsed by the reference parser",
+        "sign symbolic); 20 parent kinds x 22 child kinds x 6 dialect classes (quick tier: the literal's sign class and "
+        "the unary-on-literal variant only under the generic and MySQL classes, positive literal elsewhere); rendering "
+        "re-parsed by the reference parser",
 )
 def c06_parent_child(p: int, d: int, c: int, pos: int, n: int, ul: bool) -> int:
     """
     bound: 0 <= c <= 21 and 0 <= pos <= 2
     bound: -N <= n <= N
+    bound: d < 2 or FULLD == 1 or (n == 3 and not ul)
     """
     n = rep(n)
     if pos >= arity(p):
@@ -275,3 +278,74 @@ def c06_both(p: int, c: int, d: int, g1: int, g2: int, pos: int, n: int) -> int:
     if built is None:
         return SKIP
     return judge(built[0], built[1], "c06_both", p=p, c=c, d=d, g1=g1, g2=g2, pos=pos, n=n)
+
+
+# ---- function classes as operands ----------------------------------------------------------------
+def _function_classes():
+    from harness import c12
+    from pypika_tortoise.terms import Function
+    return [i for i, (_, cls) in enumerate(c12.CLASSES) if issubclass(cls, Function)]
+
+
+FUNCS = _function_classes()
+
+
+def toplevel_ops(sql):
+    """Operator characters outside quotes and brackets; None if a quote or bracket is unbalanced."""
+    depth, i, out = 0, 0, []
+    while i < len(sql):
+        ch = sql[i]
+        if ch == "'" or ch == '"' or ch == "`":
+            j = sql.find(ch, i + 1)
+            if j < 0:
+                return None
+            i = j + 1
+            continue
+        if ch == "(":
+            depth += 1
+        elif ch == ")":
+            depth -= 1
+            if depth < 0:
+                return None
+        elif depth == 0 and ch in "+-*/%<>=^|&,":
+            out.append(ch)
+        i += 1
+    return out if depth == 0 else None
+
+
+@harness(
+    prop="C06",
+    cubes={"k": range(len(FUNCS))},
+    bounds={"quick": {}, "thorough": {}},
+    timeout={"quick": 120, "thorough": 300},
+    witness=[dict(k=0, d=4, pos=0), dict(k=5, d=2, pos=1)],
+    doc="every Function subclass of the live package as the left operand of * and the right operand of / under the 6 "
+        "dialect classes: its text is self-delimiting (no operator character outside quotes and brackets) or the parent "
+        "brackets it",
+)
+def c06_functions(k: int, d: int, pos: int) -> int:
+    """
+    bound: 0 <= d <= 5 and 0 <= pos <= 1
+    """
+    from harness import c12
+    from harness.snapshot import _NoTracing
+    d = 0 if d == 0 else 1 if d == 1 else 2 if d == 2 else 3 if d == 3 else 4 if d == 4 else 5
+    pos = 0 if pos == 0 else 1
+    with _NoTracing():
+        f = c12.make_term(FUNCS[k])
+        if f is None:
+            return SKIP
+        name = c12.CLASSES[FUNCS[k]][1].__name__
+        own = f.get_sql(dctx(d))
+        ops = toplevel_ops(own)
+        other = Field("s").get_sql(dctx(d))
+        out = (f * Field("s") if pos == 0 else Field("s") / f).get_sql(dctx(d))
+        note("cls", name)
+        note("function", own)
+        note("sql", out)
+        if ops is None:
+            return verdict(False, "c06_functions", k=k, d=d, pos=pos, cls=name)
+        inner = own if not ops else "(" + own + ")"
+        exp = (inner + "*" + other) if pos == 0 else (other + "/" + inner)
+        note("expected", exp)
+    return verdict(out == exp, "c06_functions", k=k, d=d, pos=pos, cls=name)
